@@ -462,6 +462,7 @@ func init() {
 				e2run("counter-2c-ahead-txfail-d5", e2p{Clients: 2, Type: "counter", Prefix: "ahead", Alpha: "one txfail", Oracles: o}, 5, 0),
 				e2run("list-2c-joined-txfail-d4", e2p{Clients: 2, Type: "list", Prefix: "joined", Alpha: "txfail", Oracles: o}, 4, 0),
 				e2run("list-2c-long-d3", e2p{Clients: 2, Type: "list", Prefix: "long", Alpha: "mid", Oracles: o}, 3, 0),
+				e2run("counter-2c-bulk-transaction-of-1100-pending-d4", e2p{Clients: 2, Type: "counter", Prefix: "bulk1100", Oracles: o}, 4, 0),
 				e2run("doc-3c-long-d3", e2p{Clients: 3, Type: "doc", Prefix: "long", Oracles: o}, 3, 0),
 			}
 		} else {
@@ -469,6 +470,8 @@ func init() {
 			p.Runs = []Run{
 				e2run("counter-2c-d7", e2p{Clients: 2, Type: "counter", Oracles: o}, 7, 300000),
 				e2run("counter-2c-joined-d7", e2p{Clients: 2, Type: "counter", Prefix: "joined", Oracles: o}, 7, 300000),
+				e2run("counter-2c-bulk-transaction-of-1100-pending-d5", e2p{Clients: 2, Type: "counter", Prefix: "bulk1100", Oracles: o}, 5, 300000),
+				e2run("map-2c-bulk-transaction-of-1100-pending-d4", e2p{Clients: 2, Type: "map", Prefix: "bulk1100", Oracles: o}, 4, 300000),
 				e2run("list-2c-joined-d6", e2p{Clients: 2, Type: "list", Prefix: "joined", Alpha: "batch", Oracles: o}, 6, 300000),
 				e2run("map-3c-joined-d5", e2p{Clients: 3, Type: "map", Prefix: "joined", Oracles: o}, 5, 300000),
 				e2run("doc-2c-joined-d5", e2p{Clients: 2, Type: "doc", Prefix: "joined", Oracles: o}, 5, 300000),
@@ -508,11 +511,14 @@ func init() {
 				e2run("counter-3c-long-d4", e2p{Clients: 3, Type: "counter", Prefix: "long", Resend: true, Alpha: "one", Oracles: o}, 4, 0),
 				e2run("list-2c-long-readers-d3", e2p{Clients: 2, Type: "list", Prefix: "long", Readers: 2, Oracles: o}, 3, 0),
 				schedRun("requests-one-at-a-time-background-work-any-time-b2", 2, c06Background("counter"), 0),
+				schedRun("subscription-next-to-pushes-b2", 2, c06JoinNextToPush("counter"), 0),
 			}
 		} else {
 			p.BudgetS = 3300
 			p.Runs = []Run{
 				schedRun("requests-one-at-a-time-background-work-any-time-b3", 3, c06Background("counter"), 0),
+				schedRun("subscription-next-to-pushes-b3", 3, c06JoinNextToPush("counter"), 0),
+				schedRun("subscription-next-to-pushes-list-b2", 2, c06JoinNextToPush("list"), 0),
 				schedRun("requests-one-at-a-time-background-work-any-time-list-b2", 2, c06Background("list"), 0),
 				e2run("counter-2c-joined-d7", e2p{Clients: 2, Type: "counter", Prefix: "joined", Resend: true, Oracles: o}, 7, 300000),
 				e2run("counter-3c-joined-d6", e2p{Clients: 3, Type: "counter", Prefix: "joined", Resend: true, Oracles: o}, 6, 300000),
@@ -776,6 +782,8 @@ type e2sched struct {
 	Policy     *spolicy `json:"policy,omitempty"`
 	GiveUps    int      `json:"give_ups,omitempty"`
 	RepoPoints bool     `json:"repo_points,omitempty"`
+	FailLabel  string   `json:"fail_label,omitempty"`
+	FailNth    int      `json:"fail_nth,omitempty"`
 }
 
 // spolicy mirrors w.schedPolicy.
@@ -877,6 +885,17 @@ func c06Background(typ string) e2sched {
 		AtPoint: []string{"log"}, AtEnd: []string{"log", "converge", "applied", "issued", "reference"}}
 }
 
+// c06JoinNextToPush: one client pushes (twice) while another one, which knows the datatype only by its key, subscribes:
+// the two requests name the same datatype in different ways and are still served one at a time.
+func c06JoinNextToPush(typ string) e2sched {
+	return e2sched{E2: e2p{Clients: 2, Type: typ, Prefix: "created", Tolerant: true},
+		Conc: []pact{
+			{Op: "seq", R: 0, Sub: []pact{localOp(typ, 0), {Op: "sync", R: 0}, localOp(typ, 0), {Op: "sync", R: 0}}},
+			{Op: "seq", R: 1, Sub: []pact{{Op: "opensync", R: 1, T: "k1", K: "soc"}, localOp(typ, 1), {Op: "sync", R: 1}}},
+		},
+		AtPoint: []string{"log"}, AtEnd: []string{"log", "converge", "applied", "issued", "reference"}}
+}
+
 func localOp(typ string, r int) pact {
 	switch typ {
 	case "counter":
@@ -926,9 +945,17 @@ func init() {
 			Setup:   []pact{{Op: "dput", R: 0, K: "a", V: "o", T: "k1|"}, {Op: "sync", R: 0}},
 			Conc:    []pact{{Op: "patch", R: 0, T: "k1", V: `{"a":{"x":1},"b":[1,2]}`}, {Op: "seq", R: 1, Sub: []pact{{Op: "dput", R: 1, K: "c", V: "p", T: "k1|"}, {Op: "sync", R: 1}}}},
 			AtPoint: []string{"snapshots"}, AtEnd: []string{"snapshots", "log", "converge", "patched"}}
+		// one write of a background update is refused by the database (the nth insert of a snapshot, the nth replacement
+		// of the user document), at every position of the updates relative to each other and to the pushes
+		mkf := func(typ, label string, nth int) e2sched {
+			a := mk(typ)
+			a.FailLabel, a.FailNth = label, nth
+			return a
+		}
 		if tier == "quick" {
 			p.BudgetS = 600
-			p.Runs = []Run{schedRun("rest-patch-next-to-push-b2", 2, restNext, 0), schedRun("counter-b2", 2, mk("counter"), 0), schedRun("list-b2", 2, mk("list"), 0), schedRun("doc-b1", 1, mk("doc"), 0), schedRun("map-b1", 1, mk("map"), 0),
+			p.Runs = []Run{schedRun("counter-2nd-snapshot-insert-fails-b2", 2, mkf("counter", "insert:-_-Snapshots", 2), 0), schedRun("counter-1st-snapshot-insert-fails-b2", 2, mkf("counter", "insert:-_-Snapshots", 1), 0),
+				schedRun("rest-patch-next-to-push-b2", 2, restNext, 0), schedRun("counter-b2", 2, mk("counter"), 0), schedRun("list-b2", 2, mk("list"), 0), schedRun("doc-b1", 1, mk("doc"), 0), schedRun("map-b1", 1, mk("map"), 0),
 				schedRun("map-put-remove-b1", 1, mkrm("map"), 0), schedRun("doc-put-remove-b1", 1, mkrm("doc"), 0),
 				e2run("seq-map-2c-joined-d4", e2p{Clients: 2, Type: "map", Prefix: "joined", Alpha: "rich", Oracles: so}, 4, 0),
 				e2run("seq-doc-2c-joined-d3", e2p{Clients: 2, Type: "doc", Prefix: "joined", Oracles: so}, 3, 0),
@@ -938,7 +965,10 @@ func init() {
 			}
 		} else {
 			p.BudgetS = 3400
-			p.Runs = []Run{schedRun("rest-patch-next-to-push-b3", 3, restNext, 0), schedRun("counter-b3", 3, mk("counter"), 0), schedRun("list-b2", 2, mk("list"), 0), schedRun("doc-b2", 2, mk("doc"), 0), schedRun("map-b2", 2, mk("map"), 0),
+			p.Runs = []Run{schedRun("counter-1st-snapshot-insert-fails-b3", 3, mkf("counter", "insert:-_-Snapshots", 1), 0), schedRun("counter-2nd-snapshot-insert-fails-b3", 3, mkf("counter", "insert:-_-Snapshots", 2), 0),
+				schedRun("counter-3rd-snapshot-insert-fails-b2", 2, mkf("counter", "insert:-_-Snapshots", 3), 0), schedRun("list-2nd-snapshot-insert-fails-b2", 2, mkf("list", "insert:-_-Snapshots", 2), 0),
+				schedRun("counter-2nd-user-document-write-fails-b2", 2, mkf("counter", "update:col", 2), 0),
+				schedRun("rest-patch-next-to-push-b3", 3, restNext, 0), schedRun("counter-b3", 3, mk("counter"), 0), schedRun("list-b2", 2, mk("list"), 0), schedRun("doc-b2", 2, mk("doc"), 0), schedRun("map-b2", 2, mk("map"), 0),
 				schedRun("map-put-remove-b2", 2, mkrm("map"), 0), schedRun("doc-put-remove-b2", 2, mkrm("doc"), 0),
 				e2run("seq-map-2c-joined-d6", e2p{Clients: 2, Type: "map", Prefix: "joined", Alpha: "rich", Oracles: so}, 6, 300000),
 				e2run("seq-doc-2c-joined-d5", e2p{Clients: 2, Type: "doc", Prefix: "joined", Oracles: so}, 5, 300000),
